@@ -1612,7 +1612,15 @@ def run_fault_scenario(ck, P, only=None):
 # ------------------------------------------------------------------------------------------------
 def _mapping_setup(P, clk):
     from ZODB.MappingStorage import MappingStorage
-    ms = MappingStorage()
+    kind = P.get('kind', 'mapping')
+    if kind == 'demo':
+        from ZODB.DemoStorage import DemoStorage
+        ms = DemoStorage()
+    elif kind == 'mvccmapping':
+        from ZODB.tests.MVCCMappingStorage import MVCCMappingStorage
+        ms = MVCCMappingStorage()
+    else:
+        ms = MappingStorage()
     db = ZODB.DB(ms)
     c = db.open()
     r = c.root()
@@ -1648,7 +1656,8 @@ def _mapping_verify(ms, db, returned, T, reader_out):
             pr.append(('incomplete-transaction', 'transaction %s lost the record of the object it created (%s)'
                        % (tid.hex(), name)))
         try:
-            ms.load(oid, '')
+            if ms.loadBefore(oid, b'\xff' * 8) is None:
+                raise POSKeyError(oid)
         except POSKeyError:
             pr.append(('lost-object', 'object %s created by a returned commit of committer %d does not load'
                        % (name, k)))
@@ -1743,7 +1752,7 @@ def run_mapping_sched(P, tmp, schedule=None):
             out = []
             for i in range(P.get('reads', 3)):
                 tm.begin()
-                bound = c._storage._start
+                bound = getattr(c._storage, '_start', b'\xff' * 8)
                 try:
                     ok = True
                     for k in (1, 2):
@@ -1887,7 +1896,7 @@ def run_mapping_case(ck, case):
 def gen_mapping_params(rng, i):
     return dict(seed=rng.randrange(10 ** 9), stick=rng.choice([0.0, 0.3, 0.6, 0.9]), committers=rng.choice([1, 2]),
                 commits=rng.choice([2, 3, 4]), reads=rng.choice([0, 3]), ptime=rng.choice(['mid', 'now']),
-                pre=rng.choice([1, 2, 3]))
+                pre=rng.choice([1, 2, 3]), kind=['mapping', 'demo', 'mapping', 'mvccmapping'][i % 4])
 
 
 # ------------------------------------------------------------------------------------------------
@@ -2143,7 +2152,11 @@ def run_blob_case(ck, case):
                      dict(kind='blob', P=P, schedule=o['decisions']))
     elif o['problems']:
         sym, text = o['problems'][0]
-        ck.violation('C08:blob:' + sym, 'pack of a FileStorage with blobs under concurrent blob commits: ' + text,
+        sig = 'C08:blob:' + sym
+        if P.get('ctor') == 'blobstorage' and ('POSKeyError' in sym or 'lost-blob' in sym) and 'No blob file' in str(
+                o['problems']):
+            sig = 'C08:blobstorage-pack-removes-inflight-blob'
+        ck.violation(sig, 'pack of a FileStorage with blobs under concurrent blob commits: ' + text,
                      dict(kind='blob', P=P, schedule=o['decisions'], all_problems=o['problems'][:5]))
 
 
@@ -2347,6 +2360,146 @@ def run_blob_fault_scenario(ck, P, only=None):
             ck.violation('C08:blobfault-%s-%s:%s' % (f[0], cat, sym),
                          'OSError injected at raw operation %d (%s) of a pack of a storage with blobs, then a pack to '
                          'an earlier time: %s' % (k, o['fault'], text), dict(kind='blobfault', P=P, fail_at=k))
+
+
+# ------------------------------------------------------------------------------------------------
+# (g) close() of the storage while a pack runs
+# ------------------------------------------------------------------------------------------------
+def run_close_case(P, tmp, schedule=None):
+    """packer ∥ committer ∥ a thread that closes the DB at a schedule-chosen moment.  Whatever the pack and
+    the later commits answer, the files left behind must reopen to a database holding every commit that
+    returned (after the pack time), with index and log agreeing, and accept a commit and a pack."""
+    _install_read_hooks()
+    root = os.path.join(tmp, 'close')
+    if os.path.exists(root):
+        shutil.rmtree(root)
+    os.makedirs(root)
+    path = os.path.join(root, 'Data.fs')
+    rec = vfs.Recorder(root)
+    note = Note()
+    obs = dict(P=P)
+    with clock.scripted() as clk, sched.installed(), vfs.install(rec):
+        fs, db, info = build_db(path, P, clk)
+        t = pack_time(P, info, clk)
+        T = packtid(t)
+        returned = []
+
+        def packer():
+            try:
+                db.pack(t)
+                return 'ok'
+            except Exception as e:          # noqa: B902
+                return 'raised:%s' % type(e).__name__
+
+        def committer():
+            tm = transaction.TransactionManager()
+            out = []
+            try:
+                c = db.open(tm)
+            except Exception as e:          # noqa: B902
+                return ['raised:%s' % type(e).__name__]
+            for i in range(P.get('commits', 3)):
+                try:
+                    tm.begin()
+                    r = c.root()
+                    r['A1']['v'] = r['B1']['v'] = 3000 + i
+                    r['C1']['n'] = i + 1
+                    tm.commit()
+                    returned.append((r['C1']._p_serial, i + 1))
+                    out.append('ok')
+                except Exception as e:      # noqa: B902
+                    out.append('raised:%s' % type(e).__name__)
+                    try:
+                        tm.abort()
+                    except Exception:       # noqa: B902
+                        pass
+            return out
+
+        def closer():
+            s = sched._current
+            for i in range(P.get('delay', 10)):
+                if s is not None:
+                    s.yield_point('hook', 'wait')
+            try:
+                db.close()
+                return 'closed'
+            except Exception as e:          # noqa: B902
+                return 'raised:%s' % type(e).__name__
+
+        rec.events.clear()
+        s = DirectedScheduler(seed=P['seed'], schedule=schedule, stickiness=P.get('stick', 0.5))
+        note.s = s
+        hook_vfs(rec, note)
+        s.spawn('p', packer)
+        s.spawn('c1', committer)
+        s.spawn('z', closer)
+        res = s.run(timeout=60)
+        rec.on_event = None
+        note.s = None
+        obs.update(deadlock=bool(res['deadlock']), results=res['results'], steps=res['steps'],
+                   decisions=res['decisions'])
+        pr = []
+        # closing a storage that other threads are using has no contract of its own: threads may raise or
+        # block (counted in evidence, not judged).  Judged: what is left on disk.
+        obs['thread_errors'] = len(res['errors'])
+        try:
+            db.close()
+        except Exception:                   # noqa: B902
+            pass
+    if True:
+        try:
+            clean_side_files(path)
+            if not os.path.exists(path):
+                pr.append(('no-data-file', 'after pack ∥ close there is no Data.fs (%s)' % sorted(os.listdir(root))))
+            else:
+                f2 = FileStorage(path)
+                try:
+                    d = txn_dump(f2)
+                    tids = [x[0] for x in d]
+                    for tid, n in returned:
+                        if tid > T and tid not in tids:
+                            pr.append(('lost-commit', 'commit %s returned before / while the storage was closed '
+                                       'during a pack and is not in the reopened database' % tid.hex()[-6:]))
+                    e = index_vs_log(f2, d)
+                    if e:
+                        pr.append(('index-inconsistent', 'reopened after pack ∥ close: ' + e))
+                    db2 = ZODB.DB(f2)
+                    c = db2.open()
+                    c.root()['reopened'] = 1
+                    transaction.commit()
+                    c.close()
+                    db2.pack(time.time())
+                    e = index_vs_log(f2, txn_dump(f2))
+                    if e:
+                        pr.append(('index-inconsistent', 'after a pack of the reopened database: ' + e))
+                finally:
+                    f2.close()
+        except Exception as e:              # noqa: B902
+            transaction.abort()
+            pr.append(('reopen-raised:%s' % type(e).__name__, 'reopening after pack ∥ close: %r' % (e,)))
+    obs['problems'] = pr
+    return obs
+
+
+def run_close_family(ck, case):
+    P = case['P']
+    o = run_close_case(P, ck.tmp, case.get('schedule'))
+    res = o['results'] or {}
+    ck.case(dict(kind='close', P=P), res.get('p') != 'ok',
+            sample=dict(kind='close', P=P, results=res) if res.get('p') != 'ok' else None)
+    ck.count('close-pack-outcome:%s' % res.get('p'))
+    if o['deadlock']:
+        ck.count('close-threads-blocked-after-close')
+    if o['problems']:
+        sym, text = o['problems'][0]
+        ck.violation('C08:close:' + sym, text, dict(kind='close', P=P, schedule=o['decisions'],
+                                                    all_problems=o['problems'][:5]))
+
+
+def gen_close_params(rng, i):
+    return dict(seed=rng.randrange(10 ** 9), stick=rng.choice([0.3, 0.6, 0.9]), commits=rng.choice([2, 3]),
+                delay=rng.choice([3, 10, 25, 40, 60, 90, 120]), keep_old=bool(i % 2), ptime='mid',
+                pre=rng.choice([1, 2]), post=rng.choice([1, 2]))
 
 
 # ------------------------------------------------------------------------------------------------
@@ -2703,14 +2856,15 @@ def run_script_case(ck, case):
     oracle (exit status) judges the real code"""
     import subprocess
     path = os.path.join(VERIF, 'corpus', 'C08', case['script'])
-    for opt in ([], ['-O']):
+    for opt in case.get('opts', ([], ['-O'])):
         p = subprocess.run([sys.executable] + opt + [path], capture_output=True, text=True, timeout=120,
                            cwd=ck.tmp)
         ck.case(dict(kind='script', script=case['script'], opt=opt), True,
                 sample=dict(kind='script', script=case['script'], opt=opt, out=p.stdout.strip()[-200:]))
         ck.count('script:%s:%s' % (case['script'], 'ok' if p.returncode == 0 else 'failed'))
         if p.returncode != 0:
-            ck.violation('C08:%s:corrupt%s' % (case['script'][:-3].replace('_', '-'), '-under-O' if opt else ''),
+            ck.violation(case.get('signature') or
+                         'C08:%s:corrupt%s' % (case['script'][:-3].replace('_', '-'), '-under-O' if opt else ''),
                          '%s %s: %s' % (' '.join(['python'] + opt), case['script'],
                                         (p.stdout + p.stderr).strip()[-400:]),
                          dict(kind='script', script=case['script']))
@@ -2754,6 +2908,8 @@ def _run_case(ck, case):
         run_blob_case(ck, case)
     elif kind == 'prepack':
         run_prepack_case(ck, case)
+    elif kind == 'close':
+        run_close_family(ck, case)
     elif kind == 'blobfault':
         run_blob_fault_scenario(ck, case['P'], only=case.get('fail_at'))
     else:
